@@ -132,6 +132,7 @@ fn main() {
             "runner" => suites::runner::run(&mut ctx),
             "ext" => suites::ext::run(&mut ctx),
             "ana" => suites::ana::run(&mut ctx),
+            "mat" => suites::mat::run(&mut ctx),
             "ord" => suites::meta::run_order(&mut ctx),
             "ren" => suites::meta::run_rename(&mut ctx),
             _ => panic!("unknown suite"),
